@@ -434,10 +434,12 @@ func (p *Proxy) handleConnectRequest(ctx *Context, req *http.Request, session *S
 		log.Errorf("martian: got error while flushing response back to client: %v", err)
 	}
 
-	cbw := bufio.NewWriter(cconn)
-	cbr := bufio.NewReader(cconn)
-	defer cbw.Flush()
-
+	// The tunnel writes straight to the connections: a bufio.Writer in
+	// between only flushes when its buffer fills up, so the tail of a stream
+	// (or all of it, if short) would be withheld for as long as the tunnel is
+	// open, and whatever brw still held when the tunnel ended was never sent.
+	// Bytes that arrived behind the CONNECT head are already in brw.Reader;
+	// copying from it forwards them first, then the rest of the connection.
 	copySync := func(w io.Writer, r io.Reader, donec chan<- bool) {
 		if _, err := io.Copy(w, r); err != nil && err != io.EOF {
 			log.Errorf("martian: failed to copy CONNECT tunnel: %v", err)
@@ -448,8 +450,8 @@ func (p *Proxy) handleConnectRequest(ctx *Context, req *http.Request, session *S
 	}
 
 	donec := make(chan bool, 2)
-	go copySync(cbw, brw, donec)
-	go copySync(brw, cbr, donec)
+	go copySync(cconn, brw.Reader, donec)
+	go copySync(conn, cconn, donec)
 
 	log.Debugf("martian: established CONNECT tunnel, proxying traffic")
 	<-donec
